@@ -195,7 +195,7 @@ Definition with_pad (pad : bytes) (l : layout) : layout :=
 (* ------------------------------------------------------------------ well-formed documents *)
 (* bare word: non-empty, no boundary byte, does not start with a double quote or a semicolon
    (skipped as white space), and is not a lone '@' (which would glue to a following '[') *)
-Definition wf_unq (s : bytes) : bool :=
+Definition wf_word (s : bytes) : bool :=
   match s with
   | [] => false
   | c :: r =>
@@ -203,6 +203,20 @@ Definition wf_unq (s : bytes) : bool :=
       negb (N.eqb c 64 && match r with [] => true | _ => false end) &&
       forallb (fun b => negb (is_boundary b)) s
   end.
+
+(* r = body ++ "]" with no ']' in body *)
+Fixpoint closes_at_end (r : bytes) : bool :=
+  match r with
+  | [] => false
+  | c :: r' => match r' with [] => N.eqb c 93 | _ => negb (N.eqb c 93) && closes_at_end r' end
+  end.
+
+(* interpolated expression  @[ body ]  (any bytes but ']' in the body, boundary bytes included) *)
+Definition wf_varexpr (s : bytes) : bool :=
+  match s with 64%N :: 91%N :: r => closes_at_end r | _ => false end.
+
+(* unquoted scalar: a bare word or an interpolated expression *)
+Definition wf_unq (s : bytes) : bool := wf_word s || wf_varexpr s.
 
 (* quoted content: every double quote is escaped, no dangling backslash *)
 Fixpoint wf_quo (s : bytes) : bool :=
@@ -246,6 +260,12 @@ Definition param_first_ok (fs : fields) : bool :=
   | FCons (Field Unq _ (Some _) _) _ => true
   | _ => false
   end.
+(* the first key of a parameter object is scanned as a bare word *)
+Definition param_first_word (fs : fields) : bool :=
+  match fs with
+  | FCons (Field Unq key _ _) _ => wf_word key
+  | _ => false
+  end.
 Definition first_item_scalar (vs : values) : bool :=
   match vs with VCons (VScalar _ _) _ => true | _ => false end.
 Definition first_item_not_ghost (vs : values) : bool :=
@@ -259,15 +279,15 @@ Fixpoint wf_value (v : value) : bool :=
   | VObject fs tl => first_field_ok fs && wf_fields fs && wf_tail tl
   | VArray items => first_item_not_ghost items && wf_items items
   | VArrayKv items kvs => first_item_scalar items && wf_items items && kvs_nonempty kvs && wf_kvs kvs
-  | VHeader name v => wf_unq name && is_container v && negb (is_empty_array v) && wf_value v
+  | VHeader name v => wf_word name && is_container v && negb (is_empty_array v) && wf_value v
   end
 with wf_field (f : field) : bool :=
   match f with
   | Field k key op v =>
       wf_scalar k key && wf_value v &&
       match op with None => is_container v | Some _ => true end
-  | ParamV name u s => wf_pname name && wf_unq s
-  | ParamO name u fs => wf_pname name && param_first_ok fs && wf_fields fs
+  | ParamV name u s => wf_pname name && wf_word s
+  | ParamO name u fs => wf_pname name && param_first_ok fs && param_first_word fs && wf_fields fs
   end
 with wf_fields (fs : fields) : bool :=
   match fs with FNil => true | FCons f fs' => wf_field f && wf_fields fs' end
@@ -286,45 +306,3 @@ with wf_kvs (fs : fields) : bool :=
   end.
 
 Definition wf_doc (d : doc) : Prop := wf_fields d = true.
-
-(* ------------------------------------------------------------------ sub-grammars *)
-(* top-level fields `key op scalar` only *)
-Fixpoint flat_doc (d : fields) : bool :=
-  match d with
-  | FNil => true
-  | FCons (Field _ _ (Some _) (VScalar _ _)) d' => flat_doc d'
-  | FCons _ _ => false
-  end.
-
-(* no parameters, no mixed containers: objects, arrays (of scalars and of containers), headers,
-   empty containers, `key {` without `=` *)
-Fixpoint plain_value (v : value) : bool :=
-  match v with
-  | VScalar _ _ => true
-  | VObject fs tl => plain_fields fs && negb (values_nonempty tl)
-  | VArray items => plain_values items
-  | VArrayKv _ _ => false
-  | VHeader _ v => plain_value v
-  end
-with plain_field (f : field) : bool :=
-  match f with Field _ _ _ v => plain_value v | _ => false end
-with plain_fields (fs : fields) : bool :=
-  match fs with FNil => true | FCons f fs' => plain_field f && plain_fields fs' end
-with plain_values (vs : values) : bool :=
-  match vs with VNil => true | VCons v vs' => plain_value v && plain_values vs' end.
-
-(* no parameters (mixed containers allowed) *)
-Fixpoint noparam_value (v : value) : bool :=
-  match v with
-  | VScalar _ _ => true
-  | VObject fs tl => noparam_fields fs && noparam_values tl
-  | VArray items => noparam_values items
-  | VArrayKv items kvs => noparam_values items && noparam_fields kvs
-  | VHeader _ v => noparam_value v
-  end
-with noparam_field (f : field) : bool :=
-  match f with Field _ _ _ v => noparam_value v | _ => false end
-with noparam_fields (fs : fields) : bool :=
-  match fs with FNil => true | FCons f fs' => noparam_field f && noparam_fields fs' end
-with noparam_values (vs : values) : bool :=
-  match vs with VNil => true | VCons v vs' => noparam_value v && noparam_values vs' end.
